@@ -105,3 +105,193 @@ pub fn process_gate<'t>(
 ) -> crate::qasm::int::Result<'t, crate::operator::MultiOp> {
     crate::qasm::int::verif_process(name, regs, args)
 }
+
+/// Event log of the shared thread pool (`src/threads.rs`): logging stand-ins for
+/// `std::sync::RwLock`, `rayon::ThreadPool` and `rayon::ThreadPoolBuilder`. Every event is
+/// recorded under one mutex, *after* the real lock was acquired and *before* it is
+/// released, so the logged order is a linearisation of what really happened.
+#[cfg(feature = "multi-thread")]
+pub mod pool {
+    use std::{
+        ops::{Deref, DerefMut},
+        sync::{
+            atomic::{AtomicBool, AtomicUsize, Ordering::SeqCst},
+            LockResult, Mutex, PoisonError, TryLockError, TryLockResult,
+        },
+    };
+
+    static ENABLED: AtomicBool = AtomicBool::new(false);
+    static NEXT_TID: AtomicUsize = AtomicUsize::new(0);
+    static LOG: Mutex<Vec<String>> = Mutex::new(Vec::new());
+
+    thread_local! {
+        static TID: usize = NEXT_TID.fetch_add(1, SeqCst);
+    }
+
+    fn log(code: &str, arg: Option<Option<usize>>) {
+        if !ENABLED.load(SeqCst) {
+            return;
+        }
+        let tid = TID.with(|t| *t);
+        let ev = match arg {
+            None => format!("{tid}:{code}"),
+            Some(None) => format!("{tid}:{code}:-"),
+            Some(Some(n)) => format!("{tid}:{code}:{n}"),
+        };
+        LOG.lock().unwrap_or_else(|p| p.into_inner()).push(ev);
+    }
+
+    /// Clear the log and start recording.
+    pub fn start() {
+        LOG.lock().unwrap_or_else(|p| p.into_inner()).clear();
+        ENABLED.store(true, SeqCst);
+    }
+
+    /// Stop recording and hand out the events `thread:code[:arg]` in the order they happened.
+    pub fn take() -> Vec<String> {
+        ENABLED.store(false, SeqCst);
+        std::mem::take(&mut *LOG.lock().unwrap_or_else(|p| p.into_inner()))
+    }
+
+    /// `global_install(num_threads, ..)` was entered on this thread.
+    pub fn log_call(num_threads: usize) {
+        log("C", Some(Some(num_threads)));
+    }
+
+    /// What the log shows of the protected value: the size of the stored pool.
+    pub trait Describe {
+        fn describe(&self) -> Option<usize>;
+    }
+
+    impl<T> Describe for Option<(usize, T)> {
+        fn describe(&self) -> Option<usize> {
+            self.as_ref().map(|(n, _)| *n)
+        }
+    }
+
+    pub struct RwLock<T: Describe>(std::sync::RwLock<T>);
+
+    pub struct ReadGuard<'a, T: Describe>(std::sync::RwLockReadGuard<'a, T>);
+
+    pub struct WriteGuard<'a, T: Describe>(std::sync::RwLockWriteGuard<'a, T>);
+
+    impl<T: Describe> RwLock<T> {
+        pub fn new(t: T) -> Self {
+            Self(std::sync::RwLock::new(t))
+        }
+
+        pub fn read(&self) -> LockResult<ReadGuard<'_, T>> {
+            let r = match self.0.read() {
+                Ok(g) => Ok(ReadGuard(g)),
+                Err(p) => Err(PoisonError::new(ReadGuard(p.into_inner()))),
+            };
+            log("RA", None);
+            r
+        }
+
+        pub fn write(&self) -> LockResult<WriteGuard<'_, T>> {
+            let r = match self.0.write() {
+                Ok(g) => Ok(WriteGuard(g)),
+                Err(p) => Err(PoisonError::new(WriteGuard(p.into_inner()))),
+            };
+            log("WA", None);
+            r
+        }
+
+        pub fn try_read(&self) -> TryLockResult<ReadGuard<'_, T>> {
+            match self.0.try_read() {
+                Ok(g) => {
+                    log("RA", None);
+                    Ok(ReadGuard(g))
+                }
+                Err(TryLockError::Poisoned(p)) => {
+                    log("RA", None);
+                    Err(TryLockError::Poisoned(PoisonError::new(ReadGuard(p.into_inner()))))
+                }
+                Err(TryLockError::WouldBlock) => Err(TryLockError::WouldBlock),
+            }
+        }
+
+        pub fn try_write(&self) -> TryLockResult<WriteGuard<'_, T>> {
+            match self.0.try_write() {
+                Ok(g) => {
+                    log("WA", None);
+                    Ok(WriteGuard(g))
+                }
+                Err(TryLockError::Poisoned(p)) => {
+                    log("WA", None);
+                    Err(TryLockError::Poisoned(PoisonError::new(WriteGuard(p.into_inner()))))
+                }
+                Err(TryLockError::WouldBlock) => Err(TryLockError::WouldBlock),
+            }
+        }
+    }
+
+    impl<T: Describe> Deref for ReadGuard<'_, T> {
+        type Target = T;
+        fn deref(&self) -> &T {
+            &self.0
+        }
+    }
+
+    impl<T: Describe> Drop for ReadGuard<'_, T> {
+        fn drop(&mut self) {
+            log("RR", Some(self.0.describe()));
+        }
+    }
+
+    impl<T: Describe> Deref for WriteGuard<'_, T> {
+        type Target = T;
+        fn deref(&self) -> &T {
+            &self.0
+        }
+    }
+
+    impl<T: Describe> DerefMut for WriteGuard<'_, T> {
+        fn deref_mut(&mut self) -> &mut T {
+            &mut self.0
+        }
+    }
+
+    impl<T: Describe> Drop for WriteGuard<'_, T> {
+        fn drop(&mut self) {
+            log("WR", Some(self.0.describe()));
+        }
+    }
+
+    pub struct ThreadPool(rayon::ThreadPool);
+
+    impl ThreadPool {
+        pub fn install<OP, R>(&self, op: OP) -> R
+        where
+            OP: FnOnce() -> R + Send,
+            R: Send,
+        {
+            log("IB", Some(Some(self.0.current_num_threads())));
+            let r = self.0.install(op);
+            log("IE", None);
+            r
+        }
+
+        pub fn current_num_threads(&self) -> usize {
+            self.0.current_num_threads()
+        }
+    }
+
+    #[derive(Default)]
+    pub struct ThreadPoolBuilder(rayon::ThreadPoolBuilder);
+
+    impl ThreadPoolBuilder {
+        pub fn new() -> Self {
+            Self(rayon::ThreadPoolBuilder::new())
+        }
+
+        pub fn num_threads(self, num_threads: usize) -> Self {
+            Self(self.0.num_threads(num_threads))
+        }
+
+        pub fn build(self) -> Result<ThreadPool, rayon::ThreadPoolBuildError> {
+            self.0.build().map(ThreadPool)
+        }
+    }
+}
